@@ -11,6 +11,7 @@ import Cerberus.Model.Validate
 import Cerberus.Model.Normalize
 import Cerberus.Model.Api
 import Cerberus.Model.Schema
+import Cerberus.Model.Cache
 import Cerberus.Extracted
 import Cerberus.Model.RefTables
 open Lean Cerberus Cerberus.Codec
@@ -362,6 +363,12 @@ def portEntries (j : Json) : Except String Json := do
       (s', st.2 ++ [stj])) (s0, [])
   pure (Json.arr outs.toArray)
 
+/-! ### port `hkey`: do two mappings get the same cache key? -/
+def portHkey (j : Json) : Except String Json := do
+  let a ← valOfJson (← j.getObjVal? "a")
+  let b ← valOfJson (← j.getObjVal? "b")
+  pure (Json.bool (Cache.sameKey a b))
+
 def handle (line : String) : Json :=
   match Json.parse line with
   | .error e => Json.mkObj [("error", Json.str s!"parse: {e}")]
@@ -379,6 +386,7 @@ def handle (line : String) : Json :=
       | "api" => portApi j
       | "accept" => portAccept j
       | "entries" => portEntries j
+      | "hkey" => portHkey j
       | "ping" => pure (Json.str "pong")
       | _ => throw s!"bad-op {port}"
     match r with
